@@ -116,6 +116,12 @@ structure PolarLaws [Trig F] (ψ : F → K) : Prop where
   cos : ∀ x y : F, ψ (Scalar.sqrt (x * x + y * y)) * ψ (Trig.cos (Trig.atan2 y x)) = ψ x
   sin : ∀ x y : F, ψ (Scalar.sqrt (x * x + y * y)) * ψ (Trig.sin (Trig.atan2 y x)) = ψ y
 
+/-- `cos` and `sin` are `2π`-periodic (with `2π` written as the model writes it: `2.0 * PI`). Satisfiable over the reals
+(Lemmas/RealScalar.lean); not proved of libm. -/
+structure PeriodLaws [Trig F] (ψ : F → K) : Prop where
+  cos_add : ∀ θ : F, ψ (Trig.cos (θ + (2 : F) * Trig.pi)) = ψ (Trig.cos θ)
+  sin_add : ∀ θ : F, ψ (Trig.sin (θ + (2 : F) * Trig.pi)) = ψ (Trig.sin θ)
+
 theorem Pos.ext' {a b : Pos P} (hx : a.x = b.x) (hy : a.y = b.y) : a = b := by
   cases a; cases b; simp only [Pos.mk.injEq]; exact ⟨hx, hy⟩
 
